@@ -121,11 +121,13 @@ CLAIMS["C15"] = ("exploration", "6.C15",
     "only after a successful application and with exactly the returned text.",
     TRUST + "bounded only for the transformation itself.")
 CLAIMS["C01"] = ("exploration", "6.C01",
-    "Composition of stage guarantees: the stage contracts are proved under their own properties (C02 per-event tracer contracts, C04 mem / widening of inference and merging, C07 rewriter widening, "
-    "C10 get_stub builds from exactly the decodable rows with the configured k / rewriter / strategy, C13 placement) and re-run by this check (glue: get_stub, monkeytype.trace threading, shrink_types, "
-    "rewriters); the last hypothesis - the rendered text denotes the type - is bounded (C11), so the end-to-end statement is decided by the bounded run: generated module under real tracing, sqlite, "
-    "`monkeytype stub` for k x rewriter x flag sets, every annotation eval-ed in the stub's namespace admits every observed value.",
-    TRUST + "as strong as its weakest stage (C11 text half, bounded); the composition lemma itself is argued in DESIGN.md, not machine-checked.")
+    "Decided end to end by the bounded run (the last stage - the rendered text denotes the type - is bounded, C11): generated module under real tracing, sqlite, `monkeytype stub` for k x rewriter x flag sets, "
+    "every annotation eval-ed in the stub's namespace admits every observed value. Proved part (reported under coverage.obligations): the stage contracts this property composes are re-run here "
+    "(every contract of C04 / C07 / C08 / C13 plus the glue: shrink_traced_types, get_updated_definition, build_module_stubs[_from_traces], cli.get_stub, monkeytype.trace threading), and the composition itself is a "
+    "machine-checked lemma over those contracts, per position and for any number of calls, any size limit and any rewriter: lemma:c01_position (infer per value, merge, rewrite: the result admits every observed value) and "
+    "lemma:c01_position_through_store (the same with each per-call type encoded to JSON and decoded in between, nothing raising).",
+    TRUST + "as strong as its weakest stage (C11 text half, bounded); the store lemma assumes mem / well-formedness invariant under structural equality (mem-respects-teq, wf-respects-teq: theorems by induction, not proved) "
+    "and takes 'inferred types are within the encoder's structural domain' as a hypothesis (checked by the bounded tier of C08 on every inferred type); per-event tracer faithfulness is C02's.")
 
 NA = {
     "C01": "end-to-end composition: the stage contracts it composes are proved under C02/C04/C07/C10/C13; the composition lemma and the text half (C11) are not built yet",
